@@ -101,19 +101,20 @@ BASE_PROFILE = {
     "dup_labels_p": 0.3,
     "radii_list_p": 0.3,
     "far_p": 0.08,
+    "dim2d_p": 0.0,            # camera worlds: 2D detection / tracking on image ROIs
 }
 
 PROFILES = {
-    "generic": {},
+    "generic": {"dim2d_p": 0.15},
     "clean": {"clean_p": 1.0},
-    "c13": {
+    "c13": {"dim2d_p": 0.12, 
         "force": ["dup", "reeval", "scene_query", "crit_change", "dup_detection", "id_dup", "id_none"],
         "enable_p": 0.3,
         "narrow_crit_p": 0.6,
         "max_samples": 10,
         "interp_p": 0.4,
     },
-    "c05": {
+    "c05": {"dim2d_p": 0.2, 
         "tasks": {"tracking": 1},
         "clean_p": 0.3,
         "force": ["id_new", "id_swap", "id_steal", "label_alias", "miss"],
@@ -146,15 +147,18 @@ PROFILES = {
         "twins": ["frame"],
         "max_samples": 8,
     },
-    "c03": {"merge_p": 0.4, "dup_labels_p": 0.5, "narrow_crit_p": 0.6, "fp_gt_p": 0.2, "tasks": {"detection": 4, "tracking": 3, "fp_validation": 3}},
+    "c03": {"dim2d_p": 0.2, "merge_p": 0.4, "dup_labels_p": 0.5, "narrow_crit_p": 0.6, "fp_gt_p": 0.2, "tasks": {"detection": 4, "tracking": 3, "fp_validation": 3}},
     "c16": {"obj_tilt_p": 0.2, "far_p": 0.15, "raw_p": 0.3, "sibling_p": 0.5, "ego_tilt_p": 0.5, "max_samples": 24, "max_actors": 16, "enable_p": 0.1, "tasks": {"detection": 3, "tracking": 3, "fp_validation": 1}},
     "c19": {"sibling_p": 0.35, "analyze_p": 1.0, "force": ["analyze"], "fp_gt_p": 0.15, "max_samples": 10,
             "tasks": {"detection": 5, "tracking": 3, "fp_validation": 2}},
-    "c01": {"merge_p": 0.45, "dup_labels_p": 0.5, "radii_list_p": 0.55, "force": ["ghost", "dup_detection"], "contested_p": 0.7, "tasks": {"detection": 5, "tracking": 2, "fp_validation": 3},
+    "c01": {"dim2d_p": 0.2, "merge_p": 0.45, "dup_labels_p": 0.5, "radii_list_p": 0.55, "force": ["ghost", "dup_detection"], "contested_p": 0.7, "tasks": {"detection": 5, "tracking": 2, "fp_validation": 3},
             "fp_gt_p": 0.2},
-    "c04": {"force": ["ghost", "label_flip", "conf_near_tie"], "multi_thr_p": 0.8, "tasks": {"detection": 3, "tracking": 2}},
-    "c08": {"force": ["dup", "pf_change", "pose_noise"], "multi_thr_p": 1.0, "tasks": {"detection": 3, "tracking": 2}},
-    "c10": {"force": ["ghost", "label_unknown", "crit_change"], "narrow_crit_p": 0.7, "fp_gt_p": 0.15},
+    "c04": {"dim2d_p": 0.2, "force": ["ghost", "label_flip", "conf_near_tie"], "multi_thr_p": 0.8, "tasks": {"detection": 3, "tracking": 2}},
+    "c08": {"dim2d_p": 0.2, "force": ["dup", "pf_change", "pose_noise"], "multi_thr_p": 1.0, "tasks": {"detection": 3, "tracking": 2}},
+    "c10": {"dim2d_p": 0.2, "force": ["ghost", "label_unknown", "crit_change"], "narrow_crit_p": 0.7, "fp_gt_p": 0.15},
+    # camera worlds only (targeted runs: check.py --profile cam)
+    "cam": {"dim2d_p": 1.0, "tasks": {"detection": 1, "tracking": 1}, "fp_gt_p": 0.1, "contested_p": 0.6, "multi_thr_p": 0.7,
+            "fault_pool": [k for k in FAULT_KINDS if k not in ("yaw_flip", "analyze", "restart")]},
 }
 
 
@@ -205,7 +209,7 @@ def _make_timeline(rng, n):
     return ts, period, kind
 
 
-def _make_world(rng, prof, task):
+def _make_world(rng, prof, task, dim2=False):
     small = rng.random() < 0.45
     n = rng.randint(1, 5) if small else rng.randint(2, prof["max_samples"])
     ts, period, kind = _make_timeline(rng, n)
@@ -320,7 +324,50 @@ def _make_world(rng, prof, task):
         )
     for a in actors:
         del a["_motion"]
-    return {"samples": samples, "actors": actors, "period": period, "timeline": kind}
+    world = {"samples": samples, "actors": actors, "period": period, "timeline": kind}
+    if dim2:
+        _add_camera_tracks(rng, world, prof)
+    return world
+
+
+CAMERAS = ["CAM_FRONT", "CAM_BACK", "CAM_FRONT_LEFT", "CAM_FRONT_RIGHT", "CAM_BACK_LEFT", "CAM_BACK_RIGHT"]
+ROI_SIZES = {"car": (160, 110), "truck": (260, 200), "bus": (320, 230), "bicycle": (70, 90), "motorbike": (80, 90),
+             "pedestrian": (45, 120), "unknown": (60, 60), "false_positive": (90, 90)}
+IMG_W, IMG_H = 1920, 1080
+
+
+def _add_camera_tracks(rng, world, prof):
+    """Camera world: every actor is seen by one camera as an image ROI (x, y, w, h in whole pixels) that moves and
+    grows linearly from sample to sample.  (The 3D poses stay in the plan but are not written to a 2D dataset.)"""
+    cams = rng.sample(CAMERAS, rng.randint(1, 3))
+    world["dim"] = 2
+    world["cams"] = cams
+    placed = []
+    for a in world["actors"]:
+        cam = rng.choice(cams)
+        bw, bh = ROI_SIZES[a["label"]]
+        k = rng.uniform(0.3, 1.6)
+        w, h = max(2, int(bw * k)), max(2, int(bh * k))
+        if rng.random() < 0.06:
+            w, h = rng.randint(1, 4), rng.randint(1, 4)          # a few pixels only
+        same = [p for p in placed if p[0] == cam]
+        if same and rng.random() < prof["contested_p"]:
+            _, ox, oy, ow, oh = rng.choice(same)
+            x, y = ox + rng.randint(-ow // 2 - 1, ow // 2 + 1), oy + rng.randint(-oh // 2 - 1, oh // 2 + 1)
+            if rng.random() < 0.25:
+                w, h = ow, oh                                        # two of a kind, overlapping
+        else:
+            x, y = rng.randint(0, IMG_W - w), rng.randint(0, IMG_H - h)
+        x, y = max(0, x), max(0, y)
+        placed.append((cam, x, y, w, h))
+        vx, vy = rng.choice([0, 0, rng.randint(-40, 40)]), rng.choice([0, 0, rng.randint(-15, 15)])
+        grow = rng.choice([0, 0, rng.randint(-6, 10)])
+        for i, st in enumerate(a["states"]):
+            if st is None:
+                continue
+            wi, hi = max(1, w + grow * i), max(1, h + (grow * i * h) // max(1, w))
+            st["roi"] = [max(0, x + vx * i), max(0, y + vy * i), wi, hi]
+            st["cam"] = cam
 
 
 def _make_storage(rng, prof):
@@ -416,6 +463,15 @@ def _crit_spec(rng, cfg, scale, narrow):
         if cand and not cfg["merge"]:
             extra_label = rng.choice(cand)
     f = rng.uniform(0.15, 0.7) if narrow else rng.uniform(0.8, 2.5)
+    if cfg.get("dim") == 2:
+        # image objects have no position relative to the ego: the critical filter is labels / confidence / attributes only
+        spec = {"labels": labels + ([extra_label] if extra_label else []), "range": None}
+        m = len(spec["labels"])
+        if rng.random() < (0.5 if narrow else 0.2):
+            spec["conf_thr"] = [_r(rng.uniform(0.0, 0.7), 3) for _ in range(m)]
+        if rng.random() < 0.15:
+            spec["ignore_attrs"] = [rng.choice(ATTRS)]
+        return spec
     if rng.random() < 0.6:
         rg = {
             "kind": "xy",
@@ -454,6 +510,9 @@ def _pf_spec(rng, cfg, factor=1.0):
         labels.insert(rng.randrange(len(labels) + 1), "false_positive")
     if rng.random() < 0.08:
         return {"labels": labels, "thr": None}
+    if cfg.get("dim") == 2:
+        # 2D pass/fail is judged on IoU: thresholds in [0, 1), larger is stricter
+        return {"labels": labels, "thr": [rng.choice([0.0, 0.5]) if rng.random() < 0.1 else _r(rng.uniform(0.02, 0.95), 3) for _ in labels]}
     if rng.random() < 0.06:
         # "no target labels" = every label of the family, one threshold each (9 autoware labels)
         return {"labels": None, "thr": [_r(rng.uniform(0.4, 4.0) * factor, 3) for _ in range(9)]}
@@ -488,6 +547,8 @@ def _make_config(rng, prof, world):
     if task == "fp_validation" and rng.random() < 0.25:
         labels.insert(rng.randrange(len(labels) + 1), "false_positive")   # the FP label itself may be a target (with its own radius)
     n = len(labels)
+    if world.get("dim") == 2:
+        return _make_config_2d(rng, prof, world, task, labels, merge)
     frame = _wchoice(rng, prof["frames"])
     scale = rng.choice([30.0, 60.0, 120.0])
     cfg = {
@@ -531,6 +592,52 @@ def _make_config(rng, prof, world):
             thr["iou2d"] = _thr_spec(rng, n, 0.05, 0.8, mp, edge=0.0)
         if rng.random() < 0.5:
             thr["iou3d"] = _thr_spec(rng, n, 0.05, 0.8, mp, edge=0.0)
+    cfg["thresholds"] = thr
+    return cfg
+
+
+def _make_config_2d(rng, prof, world, task, labels, merge):
+    n = len(labels)
+    cams = list(world["cams"])
+    k = rng.randint(1, len(cams))
+    use = rng.sample(cams, k)
+    if rng.random() < 0.15:
+        spare = [c for c in CAMERAS if c not in cams]
+        use.insert(rng.randrange(len(use) + 1), rng.choice(spare))   # a configured camera the recording does not have
+    cfg = {
+        "task": task,
+        "dim": 2,
+        "frame": [c.lower() for c in use],
+        "frame_single": len(use) == 1 and rng.random() < 0.5,      # one camera may be given as a plain string
+        "frame_upper": rng.random() < 0.15,
+        "target_labels": labels,
+        "merge": merge,
+        "range": None,
+        "scale": 150.0,
+    }
+    pol = rng.random()
+    if pol < 0.3:
+        cfg["policy"] = None
+        cfg["allow_unknown_flag"] = rng.random() < 0.5
+    else:
+        cfg["policy"] = rng.choice(["DEFAULT", "ALLOW_UNKNOWN", "ALLOW_ANY", "allow_unknown"])
+    r = rng.random()
+    if r < prof["radii_list_p"]:
+        cfg["radii"] = [_r(rng.uniform(4.0, 200.0), 1) for _ in range(n)]
+    elif r < prof["radii_list_p"] + 0.35:
+        cfg["radii"] = _r(rng.uniform(4.0, 200.0), 1)
+    else:
+        cfg["radii"] = None
+    cfg["min_pts"] = None
+    cfg["conf_thr"] = None if rng.random() < 0.7 else rng.choice([_r(rng.uniform(0, 0.5), 3), [_r(rng.uniform(0, 0.5), 3) for _ in range(n)]])
+    cfg["ignore_attrs"] = None if rng.random() < 0.8 else [rng.choice(ATTRS)]
+    cfg["target_uuids"] = None
+    if world["actors"] and rng.random() < 0.07:
+        cfg["target_uuids"] = [a["token"] for a in rng.sample(world["actors"], max(1, len(world["actors"]) // 2))]
+    mp = prof["multi_thr_p"]
+    thr = {"center": _thr_spec(rng, n, 3.0, 150.0, mp, edge=float("inf"))}
+    if rng.random() < 0.85:
+        thr["iou2d"] = _thr_spec(rng, n, 0.05, 0.9, mp, edge=0.0)
     cfg["thresholds"] = thr
     return cfg
 
@@ -611,16 +718,26 @@ def make_plan(seed, run, profile_name, clean=None, force=None):
         return kind in rates or kind in forced_kinds
 
     task = _wchoice(rng, prof["tasks"])
-    world = _make_world(rng, prof, task)
+    dim2 = prof.get("dim2d_p", 0.0) > 0 and task in ("detection", "tracking") and rng.random() < prof["dim2d_p"]
+    world = _make_world(rng, prof, task, dim2)
     world["_task"] = task
     storage = _make_storage(rng, prof)
+    if dim2:
+        have = set(es["channel"] for es in storage["extra_sensors"])
+        for ch in world["cams"]:
+            if ch not in have:
+                storage["extra_sensors"].append({"channel": ch, "modality": "camera", "trans": [_r(rng.uniform(-2, 4)), _r(rng.uniform(-1, 1)), _r(rng.uniform(0, 2))],
+                                                 "yaw": _r(rng.uniform(-math.pi, math.pi), 6)})
+        storage.pop("raw", None)
+        if rng.random() < 0.35:
+            storage["order"]["object_ann"] = {"rot": rng.randrange(0, 50), "rev": rng.random() < 0.5}
     cfg = _make_config(rng, prof, world)
     del world["_task"]
     samples, actors = world["samples"], world["actors"]
     n = len(samples)
     scale = cfg["scale"]
 
-    interp = cfg["frame"] == "map" and rng.random() < prof["interp_p"]
+    interp = (not dim2) and cfg["frame"] == "map" and rng.random() < prof["interp_p"]
     period = world["period"]
     tol = rng.choice([75_000, 75_000, period // 2, period // 4, period, 3 * period, 1000, 10])
     lookup = {"tol": int(tol), "interp": bool(interp)}
@@ -636,6 +753,9 @@ def make_plan(seed, run, profile_name, clean=None, force=None):
     bias = {ai: (rng.gauss(0, 0.4), rng.gauss(0, 0.4), rng.gauss(0, 0.1), rng.gauss(0, 0.08)) for ai in range(len(actors))}
     if clean or rng.random() < 0.2:
         bias = {ai: (0.0, 0.0, 0.0, 0.0) for ai in range(len(actors))}
+    if dim2:
+        # detector bias in whole pixels: (dx, dy, dw, dh)
+        bias = {ai: tuple(int(round(b * 8)) for b in bias[ai]) for ai in bias}
     base_conf = {ai: rng.uniform(0.2, 0.99) for ai in range(len(actors))}
     next_fresh = [0]
     near_tie_carry = [None]
@@ -721,26 +841,43 @@ def make_plan(seed, run, profile_name, clean=None, force=None):
             if fire("miss"):
                 note("miss")
                 continue
-            pose_m = _truth_pose_at(a, samples, t_true)
-            pe = rm.pose_map_to_ego(ego, pose_m)
             b = bias[ai]
-            x, y, z, yaw = pe[0] + b[0], pe[1] + b[1], pe[2] + b[2], pe[3] + b[3]
-            if fire("pose_noise"):
-                s = rng.choice([0.3, 1.0, 3.0])
-                x += rng.gauss(0, s)
-                y += rng.gauss(0, s)
-                yaw += rng.gauss(0, 0.3)
-                f.append("pose_noise")
-                note("pose_noise")
-            if fire("yaw_flip"):
-                yaw += math.pi
-                f.append("yaw_flip")
-                note("yaw_flip")
-            size = list(a["size"])
-            if fire("size_noise"):
-                size = [round(max(0.05, v * rng.uniform(0.6, 1.5)), 3) for v in size]
-                f.append("size_noise")
-                note("size_noise")
+            if dim2:
+                rx, ry, rw, rh = a["states"][si]["roi"]
+                rx, ry, rw, rh = rx + b[0], ry + b[1], rw + b[2], rh + b[3]
+                if fire("pose_noise"):
+                    s = rng.choice([2, 10, 40])
+                    rx += int(rng.gauss(0, s))
+                    ry += int(rng.gauss(0, s))
+                    f.append("pose_noise")
+                    note("pose_noise")
+                if fire("size_noise"):
+                    rw = int(rw * rng.uniform(0.5, 1.7))
+                    rh = int(rh * rng.uniform(0.5, 1.7))
+                    f.append("size_noise")
+                    note("size_noise")
+                geom = {"roi": [max(0, rx), max(0, ry), max(1, rw), max(1, rh)], "cam": a["states"][si]["cam"]}
+            else:
+                pose_m = _truth_pose_at(a, samples, t_true)
+                pe = rm.pose_map_to_ego(ego, pose_m)
+                x, y, z, yaw = pe[0] + b[0], pe[1] + b[1], pe[2] + b[2], pe[3] + b[3]
+                if fire("pose_noise"):
+                    s = rng.choice([0.3, 1.0, 3.0])
+                    x += rng.gauss(0, s)
+                    y += rng.gauss(0, s)
+                    yaw += rng.gauss(0, 0.3)
+                    f.append("pose_noise")
+                    note("pose_noise")
+                if fire("yaw_flip"):
+                    yaw += math.pi
+                    f.append("yaw_flip")
+                    note("yaw_flip")
+                size = list(a["size"])
+                if fire("size_noise"):
+                    size = [round(max(0.05, v * rng.uniform(0.6, 1.5)), 3) for v in size]
+                    f.append("size_noise")
+                    note("size_noise")
+                geom = {"pose": [_r(x), _r(y), _r(z), _r(rm.wrap(yaw), 6)], "size": size}
             lab = a["label"]
             if lab == "false_positive":
                 lab = rng.choice(est_pool)
@@ -764,8 +901,7 @@ def make_plan(seed, run, profile_name, clean=None, force=None):
             o = {
                 "src": ai,
                 "label": lab,
-                "pose": [_r(x), _r(y), _r(z), _r(rm.wrap(yaw), 6)],
-                "size": size,
+                **geom,
                 "conf": _r(conf, 6),
                 "uuid": track_id[ai] if tracking else (None if rng.random() < 0.5 else "det%02d" % ai),
                 "faults": f,
@@ -773,7 +909,7 @@ def make_plan(seed, run, profile_name, clean=None, force=None):
             if rng.random() < 0.15:
                 # a perception stack may attach attributes to its labels (e.g. when estimates are derived from annotations)
                 o["attrs"] = list(a.get("attrs", [])) or [rng.choice(ATTRS)]
-            if rng.random() < 0.3:
+            if rng.random() < 0.3 and not dim2:
                 o["vel"] = [_r(rng.uniform(-10, 10), 2), _r(rng.uniform(-3, 3), 2), 0.0]
             if tracking and fire("id_none"):
                 o["uuid"] = None          # a tracker output without an id
@@ -784,13 +920,23 @@ def make_plan(seed, run, profile_name, clean=None, force=None):
             if swp and ai in swp:
                 o["faults"].append("id_swap")
             if fire("wrong_frame_id"):
-                o["frame_fault"] = True
+                if dim2:
+                    o["cam"] = rng.choice([c for c in CAMERAS if c != o["cam"]])   # reported for another camera
+                else:
+                    o["frame_fault"] = True
                 o["faults"].append("wrong_frame_id")
                 note("wrong_frame_id")
             objs.append(o)
             if fire("dup_detection"):
                 d = copy.deepcopy(o)
-                if rng.random() < 0.75:
+                if dim2:
+                    if rng.random() < 0.75:
+                        d["roi"][0] = max(0, d["roi"][0] + rng.randint(-12, 12))
+                        d["roi"][1] = max(0, d["roi"][1] + rng.randint(-12, 12))
+                    else:
+                        d["roi"][2] = max(1, int(d["roi"][2] * rng.uniform(0.5, 1.6)))
+                        d["roi"][3] = max(1, int(d["roi"][3] * rng.uniform(0.5, 1.6)))
+                elif rng.random() < 0.75:
                     d["pose"][0] = _r(d["pose"][0] + rng.uniform(-0.5, 0.5))
                     d["pose"][1] = _r(d["pose"][1] + rng.uniform(-0.5, 0.5))
                 else:
@@ -811,13 +957,19 @@ def make_plan(seed, run, profile_name, clean=None, force=None):
             n_ghost += 1
             note("ghost")
             gl = rng.choice(est_pool)
+            if dim2:
+                gw, gh = ROI_SIZES[gl]
+                ggeom = {"roi": [rng.randint(0, IMG_W - 10), rng.randint(0, IMG_H - 10), max(1, int(gw * rng.uniform(0.3, 1.5))), max(1, int(gh * rng.uniform(0.3, 1.5)))],
+                         "cam": rng.choice(world["cams"])}
+            else:
+                ggeom = {"pose": [_r(rng.uniform(-scale, scale)), _r(rng.uniform(-scale, scale)), _r(rng.uniform(-1, 1)),
+                                  _r(rng.uniform(-math.pi, math.pi), 6)],
+                         "size": [round(v * rng.uniform(0.8, 1.2), 3) for v in SIZES[gl]]}
             objs.append(
                 {
                     "src": -1,
                     "label": gl,
-                    "pose": [_r(rng.uniform(-scale, scale)), _r(rng.uniform(-scale, scale)), _r(rng.uniform(-1, 1)),
-                             _r(rng.uniform(-math.pi, math.pi), 6)],
-                    "size": [round(v * rng.uniform(0.8, 1.2), 3) for v in SIZES[gl]],
+                    **ggeom,
                     "conf": _r(rng.uniform(0.01, 0.99), 6),
                     "uuid": fresh_id() if tracking else None,
                     "faults": ["ghost"],
@@ -1028,6 +1180,8 @@ def derive_sibling(plan, dx=137.5, dy=-71.25, dz=0.4, dyaw=0.7):
         for st in a["states"]:
             if st is not None:
                 st["pose"] = move(st["pose"])
+                if "roi" in st:
+                    st["roi"] = [st["roi"][0] + 37, st["roi"][1] + 11, st["roi"][2], st["roi"][3]]
     p2["world"] = w
     p2["sibling_of"] = [plan["seed"], plan["run"]]
     return p2
